@@ -25,9 +25,11 @@ Ret(id, e) == [k |-> "ret", id |-> id, e |-> e]
 If(id, c, t) == [k |-> "if", id |-> id, c |-> c, t |-> t, f |-> <<>>]
 Def(id, name, ps, body) == [k |-> "def", id |-> id, d |-> 10 * id, n |-> name, site |-> 0, ps |-> ps,
                             pd |-> [j \in 1..Len(ps) |-> 10 * id + j], psites |-> [j \in 1..Len(ps) |-> 0], b |-> body]
-Effects == {"write-const", "write-computed", "read", "read-write", "none"}
+Effects == {"write-const", "write-computed", "read", "read-write", "none", "print", "trap"}
 Effect(id, ef) ==
   CASE ef = "write-const" -> <<Set(id, "v", Num(5))>>
+    [] ef = "print" -> <<Shout(id, Num(6))>>
+    [] ef = "trap" -> <<ExprS(id, Bin("divide", Num(1), Num(0)))>>
     [] ef = "write-computed" -> <<Set(id, "v", Bin("add", Num(2), Num(3)))>>
     [] ef = "read" -> <<Shout(id, Var("v"))>>
     [] ef = "read-write" -> <<Set(id, "v", Bin("add", Var("v"), Num(1)))>>
@@ -43,16 +45,26 @@ Wrap(id, w, stmts) ==
     [] w = "loop" -> <<Make(id, "i", Num(0)),
                        [k |-> "loop", id |-> id + 1, c |-> Bin("lt", Var("i"), Num(2)), b |-> <<Set(id + 2, "i", Bin("add", Var("i"), Num(1)))>> \o stmts]>>
 \* where: the dead statement is in the SAME function as v / in ANOTHER top-level function / in a function NESTED in v's owner
-Prog(ef, how, where, w) ==
-  LET e == Def(2, "e", <<>>, Effect(3, ef) \o <<Ret(4, Num(1))>>)
+\* the effect sits `depth` calls below e(): e -> e1 -> e2, the functions in between are pure wrappers
+\* (what a caller's summary knows about effects further down the chain)
+EDefs(ef, depth) ==
+  CASE depth = 1 -> <<Def(2, "e", <<>>, Effect(3, ef) \o <<Ret(4, Num(1))>>)>>
+    [] depth = 2 -> <<Def(2, "e", <<>>, <<Ret(4, G("e1", <<>>))>>), Def(50, "e1", <<>>, Effect(51, ef) \o <<Ret(52, Num(1))>>)>>
+    [] depth = 3 -> <<Def(2, "e", <<>>, <<Ret(4, G("e1", <<>>))>>), Def(50, "e1", <<>>, <<Ret(52, G("e2", <<>>))>>),
+                      Def(53, "e2", <<>>, Effect(54, ef) \o <<Ret(55, Num(1))>>)>>
+\* how v is observed afterwards: directly, or only after being overwritten (then `v get 7` is observed only through the call)
+Observe(obs) == IF obs = "direct" THEN <<Shout(30, Var("v"))>> ELSE <<Set(31, "v", Num(8)), Shout(30, Var("v"))>>
+Prog(ef, how, where, w, depth, obs) ==
+  LET e == EDefs(ef, depth)
       dead == Wrap(20, w, Dead(10, how))
-  IN CASE where = "same" -> <<Make(1, "v", Num(0)), e, Set(5, "v", Num(7))>> \o dead \o <<Shout(30, Var("v"))>>
-       [] where = "other" -> <<Make(1, "v", Num(0)), e, Def(6, "g", <<>>, dead \o <<Ret(7, Num(0))>>), Set(5, "v", Num(7)),
-                               ExprS(8, G("g", <<>>)), Shout(30, Var("v"))>>
-       [] where = "nested" -> <<Def(40, "outer", <<>>, <<Make(1, "v", Num(0)), e, Def(6, "g", <<>>, dead \o <<Ret(7, Num(0))>>), Set(5, "v", Num(7)),
-                                                          ExprS(8, G("g", <<>>)), Shout(30, Var("v")), Ret(41, Var("v"))>>),
+  IN CASE where = "same" -> <<Make(1, "v", Num(0))>> \o e \o <<Set(5, "v", Num(7))>> \o dead \o Observe(obs)
+       [] where = "other" -> <<Make(1, "v", Num(0))>> \o e \o <<Def(6, "g", <<>>, dead \o <<Ret(7, Num(0))>>), Set(5, "v", Num(7)),
+                               ExprS(8, G("g", <<>>))>> \o Observe(obs)
+       [] where = "nested" -> <<Def(40, "outer", <<>>, <<Make(1, "v", Num(0))>> \o e \o <<Def(6, "g", <<>>, dead \o <<Ret(7, Num(0))>>), Set(5, "v", Num(7)),
+                                                          ExprS(8, G("g", <<>>))>> \o Observe(obs) \o <<Ret(41, Var("v"))>>),
                                 Shout(42, G("outer", <<>>))>>
-Programs == {Prog(ef, how, wh, w) : ef \in Effects, how \in {"make", "set", "bare", "twice"}, wh \in {"same", "other", "nested"}, w \in {"plain", "if", "loop"}}
+Programs == {Prog(ef, how, wh, w, d, obs) : ef \in Effects, how \in {"make", "set", "bare", "twice"}, wh \in {"same", "other", "nested"}, w \in {"plain", "if", "loop"},
+                                          d \in {1, 2, 3}, obs \in {"direct", "overwritten"}}
 VARIABLES prog, m, fuel
 vars == <<prog, m, fuel>>
 Init == \E p \in Programs : prog = S!Resolve(p) /\ m = Init0(prog, NoSkip) /\ fuel = 800
